@@ -353,7 +353,15 @@ class _GitFile(IO[bytes]):
             )
         except FileExistsError as exc:
             raise FileLocked(self._filename, self._lockfilename) from exc
-        self._file = os.fdopen(fd, mode, bufsize)
+        try:
+            self._file = os.fdopen(fd, mode, bufsize)
+        except BaseException:
+            # Do not leave behind a lock that no handle can ever release.
+            try:
+                os.close(fd)
+            finally:
+                os.remove(self._lockfilename)
+            raise
         self._closed = False
 
     def __iter__(self) -> Iterator[bytes]:
@@ -367,13 +375,16 @@ class _GitFile(IO[bytes]):
         """
         if self._closed:
             return
-        self._file.close()
         try:
-            os.remove(self._lockfilename)
-            self._closed = True
-        except FileNotFoundError:
-            # The file may have been removed already, which is ok.
-            self._closed = True
+            self._file.close()
+        finally:
+            # Release the lock even if closing the file object failed.
+            try:
+                os.remove(self._lockfilename)
+                self._closed = True
+            except FileNotFoundError:
+                # The file may have been removed already, which is ok.
+                self._closed = True
 
     def close(self) -> None:
         """Close this file, saving the lockfile over the original.
@@ -390,14 +401,14 @@ class _GitFile(IO[bytes]):
         """
         if self._closed:
             return
-        self._file.flush()
-        if self._fsync:
-            os.fsync(self._file.fileno())
-        self._file.close()
-        # Adjust before the rename, so the file is never visible at the
-        # final path with the wrong permissions.
-        adjust_shared_perm(self._lockfilename, self._shared_perm)
         try:
+            self._file.flush()
+            if self._fsync:
+                os.fsync(self._file.fileno())
+            self._file.close()
+            # Adjust before the rename, so the file is never visible at the
+            # final path with the wrong permissions.
+            adjust_shared_perm(self._lockfilename, self._shared_perm)
             if getattr(os, "replace", None) is not None:
                 os.replace(self._lockfilename, self._filename)
             else:
@@ -407,8 +418,15 @@ class _GitFile(IO[bytes]):
                     # Windows versions prior to Vista don't support atomic
                     # renames
                     _fancy_rename(self._lockfilename, self._filename)
-        finally:
+        except BaseException:
+            # The write failed: leave the old content in place and release
+            # the lock rather than keeping it until garbage collection.
             self.abort()
+            raise
+        # The lock file has become the target.  There is no lock file of ours
+        # left to remove, and removing one now could delete the lock of a
+        # writer that acquired it after the rename.
+        self._closed = True
 
     def __del__(self) -> None:
         if not getattr(self, "_closed", True):
